@@ -181,6 +181,8 @@ CONSTANTS
  Glue <- MCGlue
  FlagArgs <- MCFlagArgs
  Divergent <- MCDivergent
+ TwoPass <- MCTwoPass
+ NoiseClasses <- MCNoiseClasses
 CHECK_DEADLOCK FALSE
 %s
 """
@@ -214,14 +216,16 @@ def relerr(c, r):
     return float(d.max() / (sc if sc > 0 else 1.0))
 
 
-def mc_runs(kernels, threads, reps, groups, glue, flagargs=(), divergent=()):
+def mc_runs(kernels, threads, reps, groups, glue, flagargs=(), divergent=(), twopass=(), noiseclasses=()):
     return ("---- MODULE MC_KernelRuns ----\nEXTENDS KernelRuns\n"
             "MCKernels == %s\nMCThreads == %s\nMCReps == %s\nMCGroups == {%s}\nMCGlue == {%s}\n"
-            "MCFlagArgs == {%s}\nMCDivergent == {%s}\n====\n"
+            "MCFlagArgs == {%s}\nMCDivergent == {%s}\nMCTwoPass == {%s}\nMCNoiseClasses == {%s}\n====\n"
             % (to_tla(set(kernels)), to_tla(set(threads)), to_tla(set(reps)),
                ",\n".join(to_tla(g) for g in groups), ",\n".join(to_tla(g) for g in glue),
                ", ".join('<<"%s", "%s">>' % fa for fa in flagargs),
-               ", ".join('[site |-> "%s", kernels |-> %s]' % (d["site"], to_tla(set(d["kernels"]))) for d in divergent)))
+               ", ".join('[site |-> "%s", kernels |-> %s]' % (d["site"], to_tla(set(d["kernels"]))) for d in divergent),
+               ",\n".join(to_tla(e) for e in twopass),
+               ", ".join('<<"%s", %d, %d>>' % c for c in noiseclasses)))
 
 
 FLAG_CTYPES = ("long", "int", "bool", "_Bool", "const char *", "unsigned long", "long long")
@@ -669,6 +673,81 @@ to_tla = _to_tla  # noqa: F811  (records containing sets of records)
 
 
 
+
+# --------------------------------------------------------------------------
+# B2. two-pass contract of the dense shortest-vector kernel on near-tie structures
+# --------------------------------------------------------------------------
+def check_twopass(ctx):
+    sts = K.neartie_structures(ctx.seed, ctx.tier)
+    classes = sorted(set((st["crystal"], st["noise"], st["sp"]) for st in sts))
+    tmp = tempfile.mkdtemp(prefix="c13tp_", dir=os.path.join(VERIF, ".run"))
+    events = []
+    try:
+        for build, threads in (("omp", 2), ("serial", 1)):
+            out = os.path.join(tmp, "tp_%s.pkl" % build)
+            env = dict(os.environ)
+            env.update(VERIF_EXT_VARIANT=build, OMP_NUM_THREADS=str(threads), OMP_WAIT_POLICY="passive",
+                       GOMP_SPINCOUNT="0", VERIF_REPO=REPO, PYTHONPATH=VERIF)
+            p = subprocess.run([sys.executable, "-m", "harness.c13_worker", "--twopass", str(ctx.seed), ctx.tier, out],
+                               cwd=VERIF, env=env, stdout=subprocess.DEVNULL, stderr=subprocess.PIPE, timeout=1500)
+            err = p.stderr.decode(errors="replace")
+            got = []
+            if os.path.exists(out):
+                with open(out, "rb") as f:
+                    while True:
+                        try:
+                            got.append(pickle.load(f))
+                        except Exception:
+                            break
+            for e in got:
+                e["build"] = build
+                events.append(e)
+            if "C13DONE" not in err:
+                labs = re.findall(r"C13TWOPASS (\S+)", err)
+                if not labs:
+                    raise tlcmod.MachineryError("C13 two-pass worker failed before the first structure rc=%s\n%s"
+                                                % (p.returncode, err[-1500:]))
+                # the process died inside the kernel on this structure: logged as a record that breaks the contract
+                st = [x for x in sts if x["label"] == labs[-1]][0]
+                events.append(dict(label=st["label"], crystal=st["crystal"], noise=st["noise"], sp=st["sp"], count1=[],
+                                   addr1=[], fill2=[0], filltotal=-1, alloc=0, guards1=False, guards2=False, build=build,
+                                   crashed="rc=%s %s" % (p.returncode, err[-400:])))
+    finally:
+        shutil.rmtree(tmp, ignore_errors=True)
+    ctx.traces += len(events)
+    ctx.extra["twopass_records"] = len(events)
+    for e in events:
+        ctx.count(("twopass", e["label"], e["build"]))
+    tl = [dict((k, v) for k, v in e.items() if k not in ("crashed",)) for e in events]
+    cfg = RUNS_CFG % ("TRUE", "FALSE", "INVARIANT ImplTwoPassContract\nINVARIANT ImplTwoPassCovered")
+    mc = mc_runs(K.KERNELS, [1], [1], [], [], twopass=tl, noiseclasses=classes)
+    res = ctx.tlc("MC_KernelRuns", cfg_text=cfg, extra_files={"MC_KernelRuns.tla": mc}, requirement=False,
+                  extra_args=("-continue",), workers=2, timeout=600)
+    seen = set()
+    for name, st in initial_state_violations(res.stdout):
+        if name == "ImplTwoPassCovered":
+            raise tlcmod.MachineryError("C13 near-tie generator: ImplTwoPassCovered of KernelRuns.tla not met (a noise "
+                                        "class is missing on a build, or no class splits a tie)")
+        g = st.get("grp") or {}
+        key = "kernels:%s:gsv_set_smallest_vectors_dense" % name
+        if key in seen:
+            continue
+        seen.add(key)
+        det = dict(invariant=name, record={k: v for k, v in dict(g).items()} if isinstance(g, dict) else None)
+        if isinstance(g, dict) and g.get("label"):
+            stx = [x for x in sts if x["label"] == g["label"]]
+            if stx:
+                det["structure"] = dict(label=stx[0]["label"], symprec=stx[0]["symprec"], noise_factor=K.NOISE_FACTORS[stx[0]["noise"]],
+                                        bases=stx[0]["bases"], supercell_positions=stx[0]["spos"], primitive_positions=stx[0]["ppos"])
+            bad = [(i, a, b) for i, (a, b) in enumerate(zip(g.get("count1", []), g.get("fill2", []))) if a != b][:6]
+            det["pairs_where_fill_differs_from_count"] = bad
+            for e in events:
+                if e["label"] == g["label"] and e.get("crashed"):
+                    det["crash"] = e["crashed"]
+        ctx.violation(key, "dense shortest-vector kernel: the filling pass does not write what the counting pass "
+                           "counted (%s) on a near-tie structure" % name, det)
+
+
 # --------------------------------------------------------------------------
 # C. exact integer contracts computed by TLC (spec/KernelExact.tla)
 # --------------------------------------------------------------------------
@@ -788,6 +867,7 @@ def run(ctx):
     ctx.extra["omp_exhaustive_within_bounds"] = True
     if not (want and want.startswith("omp:")):
         check_exact(ctx)
+        check_twopass(ctx)
         check_kernels(ctx, prog)
     if want:
         ctx.violations = [v for v in ctx.violations if v["key"] == want]
